@@ -545,6 +545,10 @@ def run(ctx):
         elif d:
             res["disagreements"].append(d)
     dist["merge_max_run_length_histogram(13 = 13 or more)"] = runlens
+    # ---------------- composition law (stream 3, wave 7) -------------------------------------
+    import c19_compose
+    c19_compose.run_compose(ctx, res)
+    res["streams"] = 4
     res["rule"] = ("random caption sets built through the API: 1-4 languages, 0-20 captions each (plus shared objects), "
                    "int and float times of both signs, runs of equal spans of length 1-13+ at every position, equal spans "
                    "revisited non-adjacently (A B A), int/float twins (1000 vs 1000.0), near misses sharing only start or "
@@ -561,7 +565,12 @@ def run(ctx):
             "merge_concurrent meets ok_merge (runs joined, idempotent) for several languages, under nodes_nonempty "
             "(every caption has >= 1 node - what Caption() enforces); without it the only exception is Caption()'s refusal",
             "adjust = filter(start' >= 0) o map(affine) with order and nodes kept; merge = map join (maximal runs); "
-            "a list without adjacent equal spans is returned unchanged"],
+            "a list without adjacent equal spans is returned unchanged",
+            "composition: adjust(s1,o1) then adjust(s2,o2) = adjust(s1*s2, o1*s2+o2) on the survivors of the first step; "
+            "offsets add; the inverse map undoes an adjust that drops nothing; adjust(1,0) = filter(start >= 0)",
+            "merge without nodes_nonempty: raises iff some maximal run has only captions without nodes (merge_accepts); under "
+            "exactly that guard returns the joined runs; idempotent, keeps the text of every language in order, one caption "
+            "per run in order; commutes with adjust for a non-zero skew when nothing is dropped"],
         "correspondence_only": [
             "binary64 rounding of t*skew+offset (model exact in Q; values within 2^-10 us; membership free only for "
             "0 < |x| <= (|t*skew|+|off|)*2^-50)",
@@ -573,6 +582,9 @@ def run(ctx):
 
 
 def replay(ctx, rec):
+    if rec.get("op") in ("compose", "laws"):
+        import c19_compose
+        return c19_compose.replay(rec)
     case = rec["input"]
     if rec.get("op") == "adjust":
         v, d, near = eval_adjust(case, rec["skew"], rec["offset"])
